@@ -308,8 +308,10 @@ fn initialize_error_on_this(
     let message_key = interp.property_key("message");
     let stack_key = interp.property_key("stack");
 
+    // (the name is inherited from the prototype: assigning `this.name` in a subclass makes an
+    // ordinary own property)
+    let _ = name_key;
     let mut obj_ref = obj.borrow_mut();
-    obj_ref.define_builtin_property(name_key, JsValue::String(JsString::from(name)));
     obj_ref.define_builtin_property(message_key, JsValue::String(msg_str.clone()));
     obj_ref.define_builtin_property(stack_key, JsValue::String(stack));
 }
@@ -463,7 +465,7 @@ pub fn create_error_object(
         let mut obj = error_obj.borrow_mut();
         obj.define_builtin_property(name_key, JsValue::String(JsString::from(name)));
         obj.define_builtin_property(message_key, JsValue::String(msg_str));
-        obj.set_property(stack_key, JsValue::String(stack_str));
+        obj.define_builtin_property(stack_key, JsValue::String(stack_str));
     }
 
     (JsValue::Object(error_obj), Some(guard))
